@@ -14,7 +14,7 @@ static long long vnow = 1000000000LL;
 int yv_clock_last_id = -1;     /* which clock libyara's stopwatch asked for (a CPU-time clock of the whole process would couple the timeouts of concurrent scans) */
 int yv_clock_gettime(clockid_t id, struct timespec* ts) {
 #undef clock_gettime
-  yv_clock_last_id = (int) id;
+  __atomic_store_n(&yv_clock_last_id, (int) id, __ATOMIC_RELAXED);   /* written by every scanning thread */
   if (!yv_clock_virtual) return clock_gettime(id, ts);
   yv_clock_polls++;
   vnow += 1000; /* 1 microsecond per poll */
